@@ -312,6 +312,9 @@ def run(chk):
     if skipped:
         chk.assumptions.append("families without a driver were skipped: " + ", ".join(skipped))
     modules = [m for f in fams for m in f[1]]
+    have_x = os.path.exists(os.path.join(pv.LEAN, "PV", "Driver", "HashX.lean"))
+    if have_x:
+        modules.append("PV.Props.C11x")
     proof_ok, driver_ok, detail = pv.proof_stage(chk, modules)
     ext = [d for d in detail if d.startswith("extractor: ")]
     if ext:
@@ -326,7 +329,8 @@ def run(chk):
     corr = thm = None
     for fname, _, algs in fams:
         fam = HashFamily(fname, exe)
-        cases = pv.load_corpus("C11") + corpus_cases(algs)
+        names = {a[0] for a in algs}
+        cases = [c for c in pv.load_corpus("C11") if all(o.split()[1] in names for o in c if o.startswith("new "))] + corpus_cases(algs)
         reps = 3 if thorough else 1
         for alg, hname, B in algs:
             hl = hashlib.new(hname).digest_size if hname else 32
@@ -380,7 +384,14 @@ def run(chk):
                         thm = thm or (c, r)
                     else:
                         corr = corr or (c, r)
+    if have_x:
+        import props.c11x as X
+        fx, cx, tx = X.run_part(chk, cfg, exe, proof_ok, detail)
+        found |= fx
+        corr, thm = corr or cx, thm or tx
+        chk.assumptions += X.ASSUME_X
     diffrun.conclude(chk, found, corr, thm, proof_ok and driver_ok, detail, "C11 crypto hashes")
+    chk.cov["rule_hashx"] = X.RULE_X if have_x else "not built"
     chk.cov["rule"] = ("op files new/upd/updz/str/dig/len/reset per algorithm: every message length 0..3B+1 (B = block size) with random content "
                        "(random, all-zero, all-ones, 0x80-led) and random chunkings biased to block and padding boundaries, empty updates, "
                        "too-small digest buffers, repeated reads, updates after a read, reset; published vectors; random long messages up to 1 MiB; "
